@@ -11,6 +11,11 @@ CLAIMED = {
    note="Trusted: Lean kernel + propext/Quot.sound/Classical.choice; SHAKE-256 is a parameter (collision resistance assumed); the model is hand-written and tied to /repo by the M1 stream (≈19k comparisons per quick run); text-codec round trip is checked by correspondence + oracle, not yet by a theorem.",
    technique="Lean 4 proof over executable model + differential correspondence with the Rust code",
    design="§7 C18"),
+ "C13": dict(
+   text="Lean 4 theorems: the registry state machine (ordered sets + accumulator value, as coded after the atomicity repairs) refines an abstract status map never/active/revoked for every operation and, by induction, every history; an erroring operation returns the identical state; revoked is absorbing (never re-issued, never refreshed); the published value is V0 divided by (h(y)+α) exactly once per revoked identifier in every reachable state; every handle handed out verifies. Tied to the real Issuer (both suites) by an exhaustive prefix tree over a 17-operation alphabet plus random long histories, comparing return class, ordered sets, value and the verdict of every handle ever issued after every operation.",
+   note="Trusted: Lean kernel + standard axioms; pairing check read as (y+α)•C = V; serde persist/restore is the identity on the modelled state (checked on the real code by JSON round trip at every position, not proved); claim validation and signing are abstracted to 'succeeds / fails' in this model (C15/C16 cover them).",
+   technique="Lean 4 refinement proof (state machine ⊑ abstract status map, invariant by induction over histories) + exhaustive/random history correspondence",
+   design="§7 C13"),
  "C14": dict(
    text="Lean 4 theorems over a literal model of the VB20 polynomial code: loop invariants of create_coefficients (ω(y)(y+α) = ∏A(α)·d_D(y)/∏D(α) − d_A(y)), batch update preserves the witness relation and equals the from-scratch witness, for every history of batches of any sizes by induction, deleted elements are never updated, single-step formulas for one element, non-membership analogue; all for every field, key and element. Tied to the real vb20 API by comparing every coefficient vector, accumulator and witness (batch, multi-batch in every contiguous grouping, single-step, non-membership) in discrete-log space with the real points.",
    note="Trusted: Lean kernel + standard axioms; reading of the pairing check as (y+α)•C = V (bilinearity + non-degeneracy of BLS12-381); generic-position hypotheses y+α≠0, d+α≠0 are explicit. The multi-batch formula (evaluate_deltas) is tied by correspondence and oracle only; its theorem is the stepwise history theorem.",
